@@ -60,9 +60,11 @@ func isIRPkg(path string) bool {
 }
 
 type flowCtx struct {
-	c    *Ctx
-	info *types.Info
-	defs map[types.Object][]ast.Expr
+	c     *Ctx
+	info  *types.Info
+	defs  map[types.Object][]ast.Expr
+	fn    *types.Func // the function being analysed (nil: parameters are not followed to call sites)
+	depth int
 }
 
 // accessors collects the AST accessor names reaching e.
@@ -88,6 +90,32 @@ func (fc *flowCtx) accessors(e ast.Expr, out map[string]bool, seen map[types.Obj
 				seen[obj] = true
 				for _, d := range ds {
 					fc.accessors(d, out, seen)
+				}
+			}
+			// a parameter that carries part of the syntax (a helper split off a translator,
+			// irFuncParams(new, old.Params().Params())): the accessors are those of the arguments
+			// at the call sites
+			if v, ok := obj.(*types.Var); ok && fc.fn != nil && fc.depth < 2 {
+				sig := fc.fn.Type().(*types.Signature)
+				for i := 0; i < sig.Params().Len(); i++ {
+					if sig.Params().At(i) != v {
+						continue
+					}
+					seen[obj] = true
+					fc.c.eachFunc(pkgASM, func(p2 *packages.Package, fd2 *ast.FuncDecl, fn2 *types.Func) {
+						var caller *flowCtx
+						ast.Inspect(fd2.Body, func(m ast.Node) bool {
+							call, ok := m.(*ast.CallExpr)
+							if !ok || calleeOf(p2.TypesInfo, call) != fc.fn || i >= len(call.Args) {
+								return true
+							}
+							if caller == nil {
+								caller = &flowCtx{c: fc.c, info: p2.TypesInfo, defs: collectDefs(p2.TypesInfo, fd2.Body), fn: fn2, depth: fc.depth + 1}
+							}
+							caller.accessors(call.Args[i], out, map[types.Object]bool{})
+							return true
+						})
+					})
 				}
 			}
 		}
@@ -284,6 +312,24 @@ func ruleFLOW(c *Ctx) []Obligation {
 			}
 			if cn := caseName(pos); cn != "" && strings.EqualFold(cn, f.Name()) {
 				okFlow = true
+			}
+			if !okFlow {
+				// second chance: part of the syntax may arrive through a parameter of this
+				// function (a helper split off a translator); add the accessors of the
+				// arguments at its call sites
+				fc2 := &flowCtx{c: c, info: info, defs: fc.defs, fn: fn}
+				B := map[string]bool{}
+				fc2.accessors(rhs, B, map[types.Object]bool{})
+				okFlow = B[f.Name()]
+				for _, a := range flowAlias[tkey+"."+f.Name()] {
+					okFlow = okFlow || B[a]
+				}
+				for _, a := range flowAlias["*."+f.Name()] {
+					okFlow = okFlow || B[a]
+				}
+				if okFlow {
+					names = sortedKeys(B)
+				}
 			}
 			if okFlow {
 				o.Detail = "from accessor(s) " + strings.Join(names, ", ")
